@@ -220,7 +220,14 @@ func c20Check(env *core.Env, cc core.Case) core.Verdict {
 	}
 	defer srv.Close()
 	before := sut.Snap(filepath.Dir(exe))
-	r := sut.Run(sut.Cmd{Bin: exe, Args: []string{"self-update"}, Dir: sandbox, Env: srv.Env(), Timeout: 60 * time.Second})
+	// whether the run happens inside a CI job is not an input of self-update
+	xenv := srv.Env()
+	if (len(c.Name)+len(c.Running)+len(c.Releases))%2 == 0 {
+		xenv = append(xenv, "CI=", "GITHUB_ACTIONS=")
+	} else {
+		xenv = append(xenv, "GITHUB_ACTIONS=true")
+	}
+	r := sut.Run(sut.Cmd{Bin: exe, Args: []string{"self-update"}, Dir: sandbox, Env: xenv, Timeout: 60 * time.Second})
 	log := srv.Log()
 	v := core.Verdict{Status: core.Held, Nontrivial: true, Features: []string{"running:" + c.Running, "scenario:" + c.Name}, Counts: map[string]int{"requests_served": len(log)}}
 	describeLog := func() string {
@@ -378,9 +385,20 @@ func c20Cases(env *core.Env, rng *rand.Rand) []core.Case {
 		}
 	}
 	// one HTTP fault at each request index of the flows that make requests
-	for _, s := range []sc{scs[0], scs[2], scs[13], scs[21]} {
+	byName := func(names ...string) []sc {
+		var out []sc
+		for _, n := range names {
+			for _, s := range scs {
+				if s.name == n {
+					out = append(out, s)
+				}
+			}
+		}
+		return out
+	}
+	for _, s := range byName("newer-verified", "checksum-mismatch", "empty-catalogue", "newest-is-draft") {
 		for idx := 1; idx <= 4; idx++ {
-			for _, kind := range []string{"500", "404", "truncate", "reset", "empty"} {
+			for _, kind := range []string{"500", "404", "403", "ratelimit", "truncate", "reset", "empty"} {
 				for _, run := range runnings[:2] {
 					cs = append(cs, &c20Case{Running: run, Releases: s.rels, Name: s.name + "+fault", Fault: &ghfake.Fault{Index: idx, Kind: kind}})
 				}
@@ -404,7 +422,7 @@ func c20Cases(env *core.Env, rng *rand.Rand) []core.Case {
 				Archive: core.Pick(rng, "good", "good", "good", "good", "corrupt", "nobinary")})
 		}
 		if core.Chance(rng, 1, 4) {
-			c.Fault = &ghfake.Fault{Index: 1 + rng.Intn(3), Kind: core.Pick(rng, "500", "404", "truncate", "reset", "empty")}
+			c.Fault = &ghfake.Fault{Index: 1 + rng.Intn(3), Kind: core.Pick(rng, "500", "404", "403", "ratelimit", "truncate", "reset", "empty")}
 		}
 		cs = append(cs, c)
 	}
@@ -415,7 +433,7 @@ func init() {
 	register(&core.Property{
 		ID:    "C20",
 		Level: "fault_enumeration",
-		Rule: "the built CLI (variants with main.version = v2.0.0, v0.0.0-dev, empty -> 'dev', v2.1.0-rc.1 and v3.0.0-beta.2), copied into a sandbox, runs `self-update` against a fake of the GitHub release API (TLS-intercepting CONNECT proxy, selected only through HTTPS_PROXY / SSL_CERT_FILE). Enumerated: 32 catalogues (newer verified release, checksum mismatching / for another file / empty / missing, corrupt archive, archive without the binary, other platforms only, another architecture of the same OS only / listed first, no assets, empty catalogue, draft, pre-release, older, equal, equal but tampered, non-semver tag, rc tag newer / older than / of the running version, newest release unusable with an older usable one behind it, unordered catalogues) x 5 running versions, and for four flows one HTTP fault (500, 404, truncated body, connection reset, empty 200) at each request index 1..4 x 2 running versions; plus PRNG catalogues of 0..6 releases with random attributes and faults. " +
+		Rule: "the built CLI (variants with main.version = v2.0.0, v0.0.0-dev, empty -> 'dev', v2.1.0-rc.1 and v3.0.0-beta.2), copied into a sandbox, runs `self-update` against a fake of the GitHub release API (TLS-intercepting CONNECT proxy, selected only through HTTPS_PROXY / SSL_CERT_FILE). Enumerated: 32 catalogues (newer verified release, checksum mismatching / for another file / empty / missing, corrupt archive, archive without the binary, other platforms only, another architecture of the same OS only / listed first, no assets, empty catalogue, draft, pre-release, older, equal, equal but tampered, non-semver tag, rc tag newer / older than / of the running version, newest release unusable with an older usable one behind it, unordered catalogues) x 5 running versions, and for four flows one HTTP fault (500, 404, 403, 403 with the rate-limit headers of the API, truncated body, connection reset, empty 200) at each request index 1..4 x 2 running versions; plus PRNG catalogues of 0..6 releases with random attributes and faults. " +
 			"Oracle: a model of the statement decides install / fail / nothing-to-do; install: exit 0 and the executable equals the payload of the best release's linux_amd64 asset and is executable; fail: sha256 unchanged and exit != 0; nothing-to-do: unchanged. Trace property over the fake's request log: the executable changes only if the asset and the checksum file of the same release were both served completely. No file is left next to the executable; no runtime fault or panic. Non-trivial = every scenario.",
 		Cases:         c20Cases,
 		Check:         c20Check,
